@@ -1,11 +1,20 @@
 HOOK_COMMITS = ["4172cbf", "74fb8b3", "113d79e", "16481f2", "a8453e3", "1565b2c"]
 
 ENGINES = [
+    {"name": "part", "path": "engines/part.c", "serves_properties": ["C14"],
+     "kind_free_text": "harness TU that #includes the real lp/lp.c with stubbed callees; runs lp_global_init/lp_init/lp_fini for every rank and thread of a triple"},
     {"name": "order", "path": "engines/order.c", "serves_properties": ["C16"],
      "kind_free_text": "axiom checker over all triples of an event pool, real comparator from lp/msg.h, ASan+UBSan, debug and NDEBUG layouts"},
 ]
 
 CHECKS = {
+    "C14": {
+        "engine": "part",
+        "technique": "runtime oracle on the real partitioning code: ownership/routing invariants asserted for every (LPs, ranks, threads) triple of a box, under ASan/UBSan",
+        "text": "Runs the real lp_global_init(), lp_init(), lp_fini() and the lid_to_nid/lid_to_rid macros for every rank and every thread of every triple in a box (quick: LPs<=300, ranks<=8, threads<=16; thorough: LPs<=2000, ranks<=12, threads<=24) and checks exactly-one owner, contiguity, coverage, no idle thread, routing == owner; plus random triples with 2^20..2^41 LPs at partition boundaries. Exhaustive over the box only.",
+        "design_ref": "DESIGN.md section 4, C14",
+        "note": "process_lp_init/fini, allocator and RNG init are stubs (they do not influence partitioning); triples outside the box and rank counts above LPs are not explored; the in-run agreement (LP executed only by its owner thread) is additionally asserted by the sim engine's monitors.",
+    },
     "C16": {
         "engine": "order",
         "technique": "runtime oracle: strict-weak-order axioms + content-only twins on the real comparator, exhaustive over a generated event pool, under ASan/UBSan",
